@@ -1336,9 +1336,14 @@ class ContactHandler(Messenger, dbus.service.Object):
     def recv_xfer_refuse(self, transfer_id, reason):
         Messenger.recv_xfer_refuse(self, transfer_id, reason)
 
-        self.send_bundle_finished(transfer_id, 'refused with code %s', reason)
-        item = self._tx_map.pop(transfer_id)
-        self._tx_pend_ack.remove(item)
+        item = self._tx_map.pop(transfer_id, None)
+        if item is None:
+            # Not one of our pending transfers
+            raise RejectError(messages.RejectMsg.Reason.UNEXPECTED)
+        self.send_bundle_finished(str(transfer_id), item.ack_length, 'refused with code %s' % int(reason))
+        self._tx_pend_ack.discard(item)
+        if item in self._tx_pend_start:
+            self._tx_pend_start.remove(item)
 
         # interrupt in-progress
         if self._tx_tmp is not None and self._tx_tmp.transfer_id == transfer_id:
